@@ -149,6 +149,9 @@ def plan(ch, tier):
             "hold": hold, "lane_ball": lane_ball, "oversub": oversub, "bs_mode": bs_mode,
             # the trough gives up after that many failed attempts in a row (0 = never) and must then say it is broken
             "max_attempts": ch.pick("max_attempts", [0, 0, 0, 2, 3]) if wk["p_eject_fail"] else 0,
+            # the entrance-counted VUK keeps what it catches (like a lock) until it is told to eject: it fills up and
+            # further shots bounce off it
+            "vuk_keeps": topo == "t3" and ch.flag("vuk_keeps", 0.5),
             # a mode that starts the multiball when the lock kicks a ball out (e.g. a scoop award)
             "mb_on_lock_eject": topo == "t2" and ch.flag("mb_on_lock_eject", 0.4)}
 
@@ -168,6 +171,9 @@ def execute(ctx, plan, prop):
         bd = dict(patches.get("ball_devices") or {})
         bd[topo["trough"]] = dict(bd.get(topo["trough"]) or {}, max_eject_attempts=plan["max_attempts"])
         patches["ball_devices"] = bd
+    if plan.get("vuk_keeps"):
+        patches["ball_holds"] = {"bh": {"hold_devices": "bd_vuk", "balls_to_hold": 2, "enable_events": "ball_started",
+                                        "release_one_events": "bh_release_one"}}
     if plan.get("bs_mode"):
         patches["ball_saves"] = {"bs": {"enable_events": "bs_main_enable_never_posted"}}
     patches["virtual_platform_start_active_switches"] = ", ".join(start_sw)
@@ -498,7 +504,10 @@ def execute(ctx, plan, prop):
             d = m.ball_devices[topo["locks"][op["pick"] % len(topo["locks"])]]
             if d.balls > 0:
                 ctx.probe("lock_release")
-                d.eject(1)
+                if plan.get("vuk_keeps"):
+                    m.events.post("bh_release_one")
+                else:
+                    d.eject(1)
         elif k == "mb_start":
             if m.game is not None and can_add():
                 lock = m.ball_devices[topo["locks"][0]]
@@ -623,7 +632,7 @@ def execute(ctx, plan, prop):
                  "at a manual plunger while %d ball(s) sit in devices; world=%r"
                  % (m.game.balls_in_play, loose, waiting, in_devices, world.summary()))
     if m.game is not None and not broken and "trough_b" not in topo:
-        if m.game.balls_in_play > 0 and loose == 0 and not any(world.count(n) for n in topo["manual"]):
+        if m.game.balls_in_play > 0 and loose == 0 and not any(world.count(n) for n in topo["manual"] + topo["locks"]):
             viol("request_not_served", "ball_in_play", "game running with balls_in_play=%d but no ball is loose and none waits at a "
                  "manual plunger; world=%r" % (m.game.balls_in_play, world.summary()))
     # every physically failed eject was retried or reported
